@@ -43,8 +43,9 @@ Init == /\ reg = [r \in Regs |-> IF r = "r1" THEN Seed1 ELSE IF r = "r2" THEN Se
         /\ grp = [r \in Regs |-> IF r = "r1" THEN 1 ELSE IF r = "r2" THEN 2 ELSE 3]
 
 FreshGrp(dst) == CHOOSE g \in 1..4 : \A r \in Regs : (r # dst /\ live[r]) => grp[r] # g
-Put4(dst, a, owner, g) == /\ reg' = [reg EXCEPT ![dst] = a] /\ live' = [live EXCEPT ![dst] = TRUE] /\ own' = [own EXCEPT ![dst] = owner]
-                          /\ warm' = [warm EXCEPT ![dst] = FALSE] /\ grp' = [grp EXCEPT ![dst] = g]
+\* a result inherits the 'warm' flag of its source: what was cached on the source may have been carried over
+Put5(dst, a, owner, g, w) == /\ reg' = [reg EXCEPT ![dst] = a] /\ live' = [live EXCEPT ![dst] = TRUE] /\ own' = [own EXCEPT ![dst] = owner]
+                             /\ warm' = [warm EXCEPT ![dst] = w] /\ grp' = [grp EXCEPT ![dst] = g]
 Alone(r) == \A q \in Regs : (q # r /\ live[q]) => grp[q] # grp[r]
 \* an in-place action on r may legitimately show through in the registers that alias r (slice views, shared Axis objects):
 \* the properties neither promise nor forbid it, so those registers leave the session (they are no longer observed)
@@ -65,32 +66,32 @@ Index(src, dst, form) ==
                  [] form = "slice" -> IxSl(<<L[2]>>, <<>>, <<>>)
                  [] form = "scalar" -> IxSc(L[1])
          r == Take(a, [i \in 1..NDim(a) |-> IF i = p THEN ix ELSE IxAll], "label", <<>>)
-     IN r.ok /\ Put4(dst, r.val, FALSE, grp[src]) /\ Record("index", Args(src, dst, form, <<>>))
+     IN r.ok /\ Put5(dst, r.val, FALSE, grp[src], warm[src]) /\ Record("index", Args(src, dst, form, <<>>))
 TransposeOp(src, dst) ==
   /\ Bound /\ live[src] /\ NDim(reg[src]) = 2
-  /\ Put4(dst, Transpose(reg[src], <<2, 1>>), FALSE, grp[src]) /\ Record("transpose", Args(src, dst, "", <<>>))
+  /\ Put5(dst, Transpose(reg[src], <<2, 1>>), FALSE, grp[src], warm[src]) /\ Record("transpose", Args(src, dst, "", <<>>))
 ReindexOp(src, dst, new) ==
   /\ Bound /\ live[src] /\ HasDim(reg[src], "x") /\ Len(reg[src].labs[XPos(reg[src])]) > 0
   /\ LET r == Reindex(reg[src], XPos(reg[src]), new, "i", NaN, "f", FALSE, "none")
-     IN Put4(dst, r.val, FALSE, grp[src]) /\ Record("reindex", Args(src, dst, "", new))
+     IN Put5(dst, r.val, FALSE, grp[src], warm[src]) /\ Record("reindex", Args(src, dst, "", new))
 SortOp(src, dst) ==
   /\ Bound /\ live[src] /\ HasDim(reg[src], "x")
   /\ LET a == reg[src]  p == XPos(a)
          perm == SortedPerm(a.labs[p])
          r == Take(a, [i \in 1..NDim(a) |-> IF i = p THEN IxLi(Gather(a.labs[p], perm)) ELSE IxAll], "label", <<>>)
-     IN Put4(dst, r.val, FALSE, grp[src]) /\ Record("sort_axis", Args(src, dst, "", <<>>))
+     IN Put5(dst, r.val, FALSE, grp[src], warm[src]) /\ Record("sort_axis", Args(src, dst, "", <<>>))
 \* newaxis with values (a repeat) / broadcast onto a new leading dimension "n"
 RepeatOp(src, dst) ==
   /\ Bound /\ live[src] /\ ~HasDim(reg[src], "n") /\ NDim(reg[src]) <= 2
-  /\ Put4(dst, NewAxis(reg[src], "n", 0, <<10, 12>>), FALSE, grp[src]) /\ Record("repeat", Args(src, dst, "", <<10, 12>>))
+  /\ Put5(dst, NewAxis(reg[src], "n", 0, <<10, 12>>), FALSE, grp[src], warm[src]) /\ Record("repeat", Args(src, dst, "", <<10, 12>>))
 SqueezeBack(src, dst) ==        \* take the first slice of the repeated dimension again
   /\ Bound /\ live[src] /\ HasDim(reg[src], "n") /\ DimPos(reg[src], "n") = 1 /\ NDim(reg[src]) >= 2
   /\ LET a == reg[src]
          r == Take(a, [i \in 1..NDim(a) |-> IF i = 1 THEN IxSc(a.labs[1][1]) ELSE IxAll], "label", <<>>)
-     IN r.ok /\ Put4(dst, r.val, FALSE, grp[src]) /\ Record("first_of_n", Args(src, dst, "", <<>>))
-CopyOp(src, dst) == /\ Bound /\ live[src] /\ src # dst /\ Put4(dst, reg[src], TRUE, FreshGrp(dst)) /\ Record("copy", Args(src, dst, "", <<>>))
+     IN r.ok /\ Put5(dst, r.val, FALSE, grp[src], warm[src]) /\ Record("first_of_n", Args(src, dst, "", <<>>))
+CopyOp(src, dst) == /\ Bound /\ live[src] /\ src # dst /\ Put5(dst, reg[src], TRUE, FreshGrp(dst), warm[src]) /\ Record("copy", Args(src, dst, "", <<>>))
 \* through a Dataset: ds = Dataset(); ds['v'] = reg[src]; reg[dst] = ds['v']
-ViaDataset(src, dst) == /\ Bound /\ live[src] /\ Put4(dst, reg[src], FALSE, grp[src]) /\ Record("via_dataset", Args(src, dst, "", <<>>))
+ViaDataset(src, dst) == /\ Bound /\ live[src] /\ Put5(dst, reg[src], FALSE, grp[src], warm[src]) /\ Record("via_dataset", Args(src, dst, "", <<>>))
 \* align(sort=True) of two registers; both are replaced by their aligned versions (order fixed by sort)
 NoEmptyAxis(a) == \A i \in 1..NDim(a) : Len(a.labs[i]) > 0
 AlignSorted(r1, r2, join) ==
